@@ -64,6 +64,10 @@ extern "C" void k_constants(void) {
   OBS(constrained_multi_parallelogram::kMaxNumParallelograms); OBS(constrained_multi_parallelogram::OPTIMAL_MULTI_PARALLELOGRAM);
   OBS(LEFT_FACE_EDGE); OBS(RIGHT_FACE_EDGE); OBS(EDGEBREAKER_VALENCE_MODE_2_7);
   OBS(sizeof(DracoHeader));
+  // widths of the in-memory tables that hold decoded symbol ids / probabilities (a narrower type silently truncates)
+  { RAnsDecoder<12> d; OBS(sizeof(d.lut_table_[0])); OBS(sizeof(d.probability_table_[0].prob)); OBS(sizeof(d.probability_table_[0].cum_prob));
+    RAnsSymbolDecoder<5> sd; OBS(sizeof(sd.probability_table_[0])); OBS(sizeof(sd.num_symbols_));
+    AnsDecoder ad; OBS(sizeof(ad.state)); rans_dec_sym rs; OBS(sizeof(rs.val)); }
   OBS(DRACO_BITSTREAM_VERSION(2, 2)); OBS(DRACO_BITSTREAM_VERSION(1, 1));
   verif_reach();
 }
@@ -173,7 +177,7 @@ template <int PB> static void krans_read() {
   uint32_t y = x; int o = off;
   while (y < L && o > 0) { y = y * 256 + buf[--o]; }
   const uint32_t rem = y & (P - 1);
-  uint32_t lut_slot[1]; rans_sym ptab[4];
+  typename decltype(dec.lut_table_)::value_type lut_slot[1]; rans_sym ptab[4];   // element type taken from the code under test
   uint32_t s = nondet_u32(); verif_assume(s < 4);
   lut_slot[0] = s;
   ptab[s].prob = nondet_u32(); ptab[s].cum_prob = nondet_u32();
@@ -313,4 +317,24 @@ extern "C" void k_intsqrt(void) {
   uint64_t n = nondet_u64(); verif_assume(n < (1ull << 20));
   OBS(IntSqrt(n));
   verif_reach();
+}
+
+// ---- sequential mesh connectivity block: which index width is read for which number of points (Mesh::AddFace cut)
+#include "draco/compression/mesh/mesh_sequential_decoder.h"
+#include "draco/compression/mesh/mesh_sequential_decoder.cc"
+#include "draco/compression/mesh/mesh_decoder.cc"
+#include "draco/compression/point_cloud/point_cloud_decoder.cc"
+#include "draco/mesh/mesh.cc"
+#include "draco/point_cloud/point_cloud.cc"
+extern "C" void k_seq_conn(void) {
+  Buf in; in.init();
+  Mesh mesh;
+  MeshSequentialDecoder dec;
+  dec.buffer_ = &in.db; dec.point_cloud_ = &mesh; dec.mesh_ = &mesh;
+  const bool v22 = nondet_bool();
+  in.db.set_bitstream_version(v22 ? DRACO_BITSTREAM_VERSION(2, 2) : DRACO_BITSTREAM_VERSION(2, 1));
+  dec.version_major_ = 2; dec.version_minor_ = v22 ? 2 : 1;
+  const bool ok = dec.MeshSequentialDecoder::DecodeConnectivity();
+  OBS(ok); if (ok) OBS(mesh.num_points());
+  in.done(); verif_reach();
 }
